@@ -466,7 +466,6 @@ func ruleTagNameSet(c *Ctx) {
 	}
 }
 
-
 // LOWER-TRANSIENT: the lower-cased name may live in the reusable scratch buffer; it must not be kept.
 func ruleLowerTransient(c *Ctx) {
 	c.Rule("LOWER-TRANSIENT", "maybeLower returns either its argument or the reusable scratch buffer, which the next call overwrites. Its result (followed through the parameters of module helpers it is passed to) is therefore only read — passed to FilterTag, compared, measured — and never stored into a field, a variable that outlives the statement, a slice element or a map: a remembered name would silently change when the next tag is lower-cased (a memoised verdict then answers for the wrong tag).")
